@@ -16,7 +16,7 @@ import time
 
 VERIF = os.path.dirname(os.path.dirname(os.path.abspath(__file__)))
 REPO = os.environ.get('VERIF_REPO', '/repo')
-WORK = os.path.join(VERIF, '.cache', 'rp-work')
+WORK = os.path.join(VERIF, '.cache', 'rp-work' + os.environ.get('VERIF_WORK_SUFFIX', ''))
 TARGET = os.path.join(VERIF, '.cache', 'rp-target')
 
 
